@@ -16,8 +16,9 @@ Theorems (all audited on every run: propext, Classical.choice, Quot.sound only)
             C06_iknp_history_buffers (label form: every history, every content of the
             caller-provided result buffers), C06_iknp_or_store_zero_buffer_ok /
             C06_iknp_or_store_dirty_witness (about the named variant `Store.orInto` only),
-            C06_iknp_bits_dirty_partial / C06_iknp_bits_dirty_witness (packed-bit form
-            of /repo: ORs into the caller's words — known finding)
+            C06_iknp_bits_dirty (packed-bit form on every buffer content; /repo HEAD
+            since 8f72c8a), C06_iknp_bits_dirty_old_witness (about the named pre-fix
+            store `BitStore.orOnly` only)
   COT/ROT   C06_cot_delivers, C06_rot_consistent, C06_cot_end_to_end, C06_rot_end_to_end
   CO        C06_co_masks_agree, C06_co_delivers (HEAD helpers `encryptO`/`decryptO`,
             incl. the on-curve checks of 68f93f2 / 0e7671a)
@@ -252,13 +253,13 @@ OR-accumulating transposition): one transfer, zero streams, choice 0, a result
 slice holding `1` — the sender ends with label 0, the receiver with label 1,
 `received_0 ≠ sent_0 xor 0*Delta`. -/
 theorem C06_iknp_or_store_dirty_witness :
-    (runCallB Store.orInto (fun _ _ => 0#8) (fun _ _ => 0#8) (fun _ _ => 0#8) 0#128 RecvSt.init SendSt.init
+    (runCallB Store.orInto .write (fun _ _ => 0#8) (fun _ _ => 0#8) (fun _ _ => 0#8) 0#128 RecvSt.init SendSt.init
         ⟨#[1#128], #[], #[]⟩ (.labels false #[false] 0#128 0#128 (.arena none 0 0))).map
       (fun r => (r.2.2.2.1.out.sentL, r.2.2.2.1.out.rcvdL)) = some ([0#128], [1#128]) ∧
-    ∀ r, runCallB Store.orInto (fun _ _ => 0#8) (fun _ _ => 0#8) (fun _ _ => 0#8) 0#128 RecvSt.init SendSt.init
+    ∀ r, runCallB Store.orInto .write (fun _ _ => 0#8) (fun _ _ => 0#8) (fun _ _ => 0#8) 0#128 RecvSt.init SendSt.init
         ⟨#[1#128], #[], #[]⟩ (.labels false #[false] 0#128 0#128 (.arena none 0 0)) = some r →
       ¬ CallSpecB 0#128 (.labels false #[false] 0#128 0#128 (.arena none 0 0)) r.2.2.2.1 := by
-  have h : (runCallB Store.orInto (fun _ _ => 0#8) (fun _ _ => 0#8) (fun _ _ => 0#8) 0#128 RecvSt.init SendSt.init
+  have h : (runCallB Store.orInto .write (fun _ _ => 0#8) (fun _ _ => 0#8) (fun _ _ => 0#8) 0#128 RecvSt.init SendSt.init
         ⟨#[1#128], #[], #[]⟩ (.labels false #[false] 0#128 0#128 (.arena none 0 0))).map
       (fun r => (r.2.2.2.1.out.sentL, r.2.2.2.1.out.rcvdL)) = some ([0#128], [1#128]) := by decide +kernel
   refine ⟨h, ?_⟩
@@ -277,12 +278,13 @@ long-lived array, either as the earlier calls left it or overwritten with
 ARBITRARY content first — the history runs to completion (no error, no panic,
 every chunk consumed, streams in step), and every label-form call (both
 adversary modes) delivers `received_i = sent_i xor choice_i*Delta` at every
-position of the receiver's slice.  The packed-bit calls are in the same
-histories with the partial specification of `CallSpecB` (see
-`C06_iknp_bits_dirty_partial`). -/
+position of the receiver's slice, and every packed-bit call delivers
+`received_j = sent_j xor (Delta.Bit(0) and choice_j)` at every position `< n`
+of the two result slices and leaves every position `≥ n` unchanged
+(`CallSpecB`; single call: `C06_iknp_bits_dirty`). -/
 theorem C06_iknp_history_buffers (R0 R1 SS : Nat → Nat → Byte) (delta : Label) (hb : BaseOK R0 R1 SS delta)
     (SL SW : Nat) (ar : Arena) (har : ar.Sized SL SW) (cs : List CallB) (hwf : ∀ c ∈ cs, c.WF SL SW) :
-    ∃ outs, sessionB Store.assign R0 R1 SS delta RecvSt.init SendSt.init ar cs = some outs ∧
+    ∃ outs, sessionB Store.assign .write R0 R1 SS delta RecvSt.init SendSt.init ar cs = some outs ∧
       outs.length = cs.length ∧
       ∀ k (hk : k < cs.length) (hk' : k < outs.length), CallSpecB delta cs[k] outs[k] :=
   sessionB_ok R0 R1 SS delta hb SL SW cs _ _ ar InStep.init har hwf
@@ -300,43 +302,39 @@ example : (Arena.mk (zerosL 4) (zerosW 2) (zerosW 2)).Sized 4 2 ∧
   rcases hc with rfl | rfl | rfl | rfl
   all_goals simp [CallB.WF, BufSrc.WF]
 
-/-- Packed-bit form on caller buffers with ARBITRARY content — PARTIAL.
-FULL STATEMENT (what the doc comments of `SendBits` / `ReceiveBits` promise:
-"Existing contents are overwritten"), NOT provable because false
-(`C06_iknp_bits_dirty_witness`):
-
-    ∀ rwin swin, … → ∀ j < n, bitAt rw j = (bitAt sw j ^^ (Delta.Bit(0) && choice_j))
-
-Proved: no error branch, streams in step, and both buffers end as their OLD
-content OR the outputs `rw0`, `sw0` of the same call on zeroed buffers, which
-do satisfy the correlation; so the correlation holds at every position whose
-bit was clear in both buffers before the call. -/
-theorem C06_iknp_bits_dirty_partial (R0 R1 SS : Nat → Nat → Byte) (delta : Label) (hb : BaseOK R0 R1 SS delta)
+/-- Packed-bit form on caller buffers with ARBITRARY content (what the doc
+comments of `SendBits` / `ReceiveBits` promise: "Existing contents are
+overwritten"; /repo HEAD since 8f72c8a writes each of the `n` result bits,
+`BitStore.write`).  For every content of the two result slices (at least the
+needed length, possibly longer): no error branch, the sender consumes exactly
+the receiver's chunks, the streams end in step, both slices keep their lengths,
+EVERY position `< n` holds exactly `received_j = sent_j xor (Delta.Bit(0) and
+choice_j)`, the positions `≥ n` of the last needed word are unchanged, and so
+are all later words. -/
+theorem C06_iknp_bits_dirty (R0 R1 SS : Nat → Nat → Byte) (delta : Label) (hb : BaseOK R0 R1 SS delta)
     (rs : RecvSt) (ss : SendSt) (hs : InStep rs ss) (choices : Words) (n : Nat)
     (hch : (n + 63) / 64 ≤ choices.size) (rwin swin : Words)
     (hr : (n + 63) / 64 ≤ rwin.size) (hsw : (n + 63) / 64 ≤ swin.size) :
-    ∃ rs' ss' rw sw msgs rw0 sw0,
-      receiveBits R0 R1 rs choices rwin n = some (rs', rw, msgs) ∧
-      sendBits SS delta ss n swin msgs = some (ss', sw, []) ∧
-      InStep rs' ss' ∧
-      (∀ j, j < n → bitAt rw0 j = (bitAt sw0 j ^^ (labelBit delta 0 && bitAt choices j))) ∧
-      (∀ j, bitAt rw j = (bitAt rwin j || bitAt rw0 j)) ∧ (∀ j, bitAt sw j = (bitAt swin j || bitAt sw0 j)) ∧
-      ∀ j, j < n → bitAt rwin j = false → bitAt swin j = false →
-        bitAt rw j = (bitAt sw j ^^ (labelBit delta 0 && bitAt choices j)) := by
-  obtain ⟨rs', ss', rw, sw, msgs, rw0, sw0, g1, g2, g3, g4, _, g6, g7⟩ :=
-    bits_call_dirty R0 R1 SS delta hb rs ss hs choices n hch rwin swin hr hsw
-  refine ⟨rs', ss', rw, sw, msgs, rw0, sw0, g1, g2, g3, g4, g6.2, g7.2, ?_⟩
-  intro j hj hrz hsz
-  rw [g6.2 j, g7.2 j, hrz, hsz, Bool.false_or, Bool.false_or]
-  exact g4 j hj
+    ∃ rs' ss' rw sw msgs,
+      receiveBitsS .write R0 R1 rs choices rwin n = some (rs', rw, msgs) ∧
+      sendBitsS .write SS delta ss n swin msgs = some (ss', sw, []) ∧
+      InStep rs' ss' ∧ rw.size = rwin.size ∧ sw.size = swin.size ∧
+      (∀ j, j < n → bitAt rw j = (bitAt sw j ^^ (labelBit delta 0 && bitAt choices j))) ∧
+      (∀ j, n ≤ j → j < 64 * ((n + 63) / 64) → bitAt rw j = bitAt rwin j ∧ bitAt sw j = bitAt swin j) ∧
+      (∀ j, 64 * ((n + 63) / 64) ≤ j → bitAt rw j = bitAt rwin j ∧ bitAt sw j = bitAt swin j) := by
+  obtain ⟨rs', ss', rw, sw, msgs, g1, g2, g3, g4, g5, g6, g7⟩ :=
+    bits_call_write R0 R1 SS delta hb rs ss hs choices n hch rwin swin hr hsw
+  exact ⟨rs', ss', rw, sw, msgs, g1, g2, g3, g4, g5, g6, fun j h _ => g7 j h, fun j h => g7 j (by omega)⟩
 
 example : (3 + 63) / 64 ≤ (#[0xffff#64, 1#64] : Words).size ∧ (3 + 63) / 64 ≤ (#[5#64] : Words).size := by decide
 
-/-- Negation witness for the code of /repo (packed-bit form, receiver's buffer
-not zero): one transfer, zero streams, choice 0, the receiver's result word
-holding `1`: the sender's bit is 0, the receiver's bit stays 1. -/
-theorem C06_iknp_bits_dirty_witness :
-    (runCallB Store.assign (fun _ _ => 0#8) (fun _ _ => 0#8) (fun _ _ => 0#8) 0#128 RecvSt.init SendSt.init
+/-- What was wrong before 8f72c8a (`BitStore.orOnly`: only the 1 bits were ORed
+in, a 0 result left the caller's word alone): one transfer, zero streams,
+choice 0, the receiver's result word holding `1` — the sender's bit is 0, the
+receiver's bit stays 1.  The check replays this on a tree with the fix
+reverted (oracle signature `c06-bits-corr` with stale bits). -/
+theorem C06_iknp_bits_dirty_old_witness :
+    (runCallB Store.assign .orOnly (fun _ _ => 0#8) (fun _ _ => 0#8) (fun _ _ => 0#8) 0#128 RecvSt.init SendSt.init
         ⟨#[], #[1#64], #[]⟩ (.bits 1 #[0#64] (.arena none 0 0) .fresh)).map
       (fun r => (r.2.2.2.1.out.sentW, r.2.2.2.1.out.rcvdW)) = some (#[0#64], #[1#64]) ∧
     ¬ (∀ j, j < 1 → bitAt #[1#64] j = (bitAt #[0#64] j ^^ (labelBit 0#128 0 && bitAt #[0#64] j))) := by
@@ -345,6 +343,12 @@ theorem C06_iknp_bits_dirty_witness :
   have := h 0 (by decide)
   revert this
   decide
+
+/-- Now correct: the same call with the store of /repo HEAD clears the bit. -/
+example :
+    (runCallB Store.assign .write (fun _ _ => 0#8) (fun _ _ => 0#8) (fun _ _ => 0#8) 0#128 RecvSt.init SendSt.init
+        ⟨#[], #[1#64], #[]⟩ (.bits 1 #[0#64] (.arena none 0 0) .fresh)).map
+      (fun r => (r.2.2.2.1.out.sentW, r.2.2.2.1.out.rcvdW)) = some (#[0#64], #[0#64]) := by decide +kernel
 
 /-! ## COT / ROT over IKNP with MITCCRH -/
 
